@@ -124,7 +124,8 @@ class PropertyCheck:
         cur = script
         i = len(cur.lines) - 1
         budget = 60
-        while i >= 0 and budget > 0:
+        t_end = time.time() + 90 * float(os.environ.get("VERIF_TIME_SCALE", "1.5"))     # wall-clock budget of one minimisation
+        while i >= 0 and budget > 0 and time.time() < t_end and HANGS["confirmed"] < 8:
             if cur.events[i][0] == "digest":
                 i -= 1
                 continue
